@@ -1,8 +1,10 @@
 /- Driver stream `c06`: serde trees -> postcard/bincode bytes; Policies serde model. -/
 import FuelVerif.Basic.Loop
 import FuelVerif.Model.PoliciesSerde
+import FuelVerif.Model.SerdeCheck
+import FuelVerif.Gen.SerdeShapes
 namespace FuelVerif.Drv.C06
-open FuelVerif FuelVerif.Serde FuelVerif.PoliciesSerde FuelVerif.Gen.Policies
+open FuelVerif FuelVerif.Serde FuelVerif.PoliciesSerde FuelVerif.Gen.Policies FuelVerif.Gen.SerdeShapes
 
 def tokenize (s : String) : List String :=
   let s := (s.replace "(" " ( ").replace ")" " ) "
@@ -63,33 +65,63 @@ partial def showTree : Tree → String
 partial def showMany (xs : List Tree) : String := " ".intercalate (xs.map showTree)
 end
 
-/-- `postcard::from_bytes::<Policies>`: u32 bits, then the layout `visit_seq` asks for; trailing bytes ignored -/
-def policiesFromPostcard (bs : Bytes) : Option Policies :=
-  match pcDec .u32 bs with
-  | some (.u32 bits, r) =>
-    let shape := if isLegacy legacyMaskSeq bits then Shape.tuple [.u64, .u64, .u64, .u64] else Shape.seq .u64
-    match pcDec shape r with
-    | some (t, _) =>
-      match deSeq (.tuple [.u32 bits, t]) with
-      | .ok p => some p
-      | .error _ => none
-    | none => none
-  | _ => none
+/-- `postcard::from_bytes::<Policies>` / `bincode::deserialize::<Policies>`: the generated layout-dependent
+shape, then `visit_seq`'s own checks; trailing bytes ignored -/
+def policiesFromWire (dec : Shape → Bytes → Option (Tree × Bytes)) (bs : Bytes) : Option Policies :=
+  match dec (shapeOf .TPolicies) bs with
+  | some (t, _) =>
+    match deSeq t with
+    | .ok p => some p
+    | .error _ => none
+  | none => none
+
+def treesEq (a b : Tree) : Bool := showTree a == showTree b
+
+/-- `tree <Type> <sexpr> <postcard hex> <bincode hex>`: the recorded tree of a real value and the real
+crates' bytes. Checked: the tree has the GENERATED shape of the type; the model encoders reproduce the
+bytes; the model decoders, run on the REAL bytes with the generated shape, return exactly the recorded tree
+and no rest. -/
+def checkTree (T : TypeName) (t : Tree) (pc bc : Bytes) : String :=
+  let s := shapeOf T
+  let errs : List String :=
+    (if hasShapeB s t then [] else ["tree-does-not-have-the-generated-shape"]) ++
+    (if pcEnc t == pc then [] else [s!"postcard-enc:{toHex (pcEnc t)}"]) ++
+    (if bcEnc t == bc then [] else [s!"bincode-enc:{toHex (bcEnc t)}"]) ++
+    (match pcDecode policiesValid s pc with
+     | some (t', []) => if treesEq t' t then [] else [s!"postcard-dec-differs:{showTree t'}"]
+     | some (_, _ :: _) => ["postcard-dec-leaves-rest"]
+     | none => ["postcard-dec-fails"]) ++
+    (match bcDecode policiesValid s bc with
+     | some (t', []) => if treesEq t' t then [] else [s!"bincode-dec-differs:{showTree t'}"]
+     | some (_, _ :: _) => ["bincode-dec-leaves-rest"]
+     | none => ["bincode-dec-fails"])
+  if errs.isEmpty then "ok" else " ".intercalate errs
 
 def handle : List String → String
   | "pol" :: bits :: vals =>
     match bits.toNat? with
     | some b => showTree (ser ⟨b, vals.map (fun v => natOr v 0)⟩)
     | none => "bad-op"
-  | "tree" :: rest =>
-    match parseTree (tokenize (" ".intercalate rest)) with
-    | some (t, []) => s!"{toHex (pcEnc t)} {toHex (bcEnc t)}"
-    | _ => "bad-op"
+  | "tree" :: ty :: rest =>
+    match TypeName.ofString? ty, rest.reverse with
+    | some T, bc :: pc :: sx =>
+      match parseTree (tokenize (" ".intercalate sx.reverse)), ofHex pc, ofHex bc with
+      | some (t, []), some pc, some bc => checkTree T t pc bc
+      | _, _, _ => "bad-op"
+    | _, _ => "bad-op"
+  | ["de", ty, fmt, h] =>
+    match TypeName.ofString? ty, ofHex h with
+    | some T, some bs =>
+      let r := if fmt == "pc" then pcDecode policiesValid (shapeOf T) bs else bcDecode policiesValid (shapeOf T) bs
+      match r with
+      | some (t, rest) => s!"ok {rest.length} {showTree t}"
+      | none => "err"
+    | _, _ => "bad-op"
   | ["polde", h] =>
     match ofHex h with
     | none => "bad-op"
     | some bs =>
-      match policiesFromPostcard bs with
+      match policiesFromWire pcDec bs with
       | some p => s!"ok {showTree (ser p)}"
       | none => "err"
   | _ => "bad-op"
